@@ -12,7 +12,7 @@ from . import meshes
 
 # kind -> formats it can be exported to
 FORMATS = {
-    "mesh": ["stl", "stl_ascii", "ply", "ply_ascii", "off", "obj", "glb", "gltf", "3mf", "dae", "dict", "dict64", "zip_stl", "zip_ply", "targz_obj"],
+    "mesh": ["stl", "stl_ascii", "ply", "ply_ascii", "off", "obj", "obj_mtl", "glb", "gltf", "3mf", "dae", "dict", "dict64", "zip_stl", "zip_ply", "targz_obj", "zip_obj_mtl"],
     "scene": ["glb", "gltf", "3mf", "dict", "zip_glb"],
     "points": ["ply", "xyz", "glb"],
     "path2d": ["dxf", "svg", "dict"],
@@ -92,10 +92,12 @@ def random_geometry_recipe(rng, kind):
     return r
 
 
-def build_geometry(r):
+def build_geometry(r, fmt=None):
     import trimesh
 
     kind = r["kind"]
+    if fmt in ("obj_mtl", "zip_obj_mtl") and kind == "mesh" and r.get("shape") not in ("empty", "large_index", "large_soup"):
+        r = dict(r, colors="texture")
     rs = np.random.RandomState(r["salt"] % (2**32))
     if kind == "mesh":
         V, F = meshes.build(r["mesh"])
@@ -349,6 +351,12 @@ def export_payload(obj, fmt, opts=None):
         kw = {k: v for k, v in opts.items() if k in ("include_normals", "merge_buffers", "embed_buffers") and v is not None}
         data = obj.export(file_type="gltf", **kw)
         return {k: (v if isinstance(v, bytes) else v.encode()) for k, v in data.items()}, "model.gltf", "gltf"
+    if fmt == "obj_mtl":
+        # OBJ with its material library and texture image as side files (served by a resolver / archive / directory)
+        text, tex = obj.export(file_type="obj", return_texture=True, **{k: v for k, v in opts.items() if k in ("digits", "include_normals") and v is not None})
+        files = {"model.obj": text.encode() if isinstance(text, str) else text}
+        files.update({k: (v if isinstance(v, bytes) else v.encode()) for k, v in tex.items()})
+        return files, "model.obj", "obj"
     if fmt == "obj":
         data = obj.export(file_type="obj", **{k: v for k, v in opts.items() if k in ("digits", "include_normals", "include_color") and v is not None})
         if isinstance(data, tuple):
